@@ -280,13 +280,9 @@ fn mechanism(img: &FsImage, dimg: &FsImage, name: &str, listed: bool) -> String 
                 let po = write_tmp(&orig, "probe.manifest.orig");
                 match (kyrodb_engine::Manifest::load(&p), kyrodb_engine::Manifest::load(&po)) {
                     (Ok(m), Ok(o)) => {
-                        if m.latest_snapshot != o.latest_snapshot {
-                            "manifest_parsed_with_different_snapshot_pointer".into()
-                        } else if m.wal_segments != o.wal_segments {
-                            "manifest_parsed_with_different_segment_list".into()
-                        } else {
-                            "manifest_parsed_with_other_difference".into()
-                        }
+                        // MANIFEST carries no checksum: any flip that still parses is accepted as is
+                        let _ = (m, o);
+                        "damaged_manifest_still_parses".into()
                     }
                     (Err(_), _) => "manifest_unreadable_but_start_up_continued".into(),
                     _ => "original_unreadable".into(),
